@@ -448,8 +448,9 @@ package kafka
 // state the batch is in - otherwise the next operation on the Conn would take the leftover bytes for its own response.
 //@ func (*messageSetReader).discard
 //@   trusted drains the rest of the fetch response from the connection; touches only the reader and the stream
-//@   modifies *r, region($rpos), r.$drained
+//@   modifies *r, region($rpos), r.$drained, r.$empty
 //@   ensures r.$drained
+//@   ensures err == nil ==> r.$empty
 //@ func releaseBuffer
 //@   trusted resets the buffer and puts it into bufferPool
 //@   modifies *b
@@ -1218,3 +1219,25 @@ package kafka
 //@   callsite (*Generation).CommitOffsets ensures gen.$lastok == (result == nil)
 //@   ensures err == nil && retries > 0 ==> gen.$lastok
 //@   loop 0 invariant 0 <= attempt && (attempt > 0 ==> err != nil)
+
+//@ property C02 C17
+
+// Batch.readMessage moves the batch position only past what was delivered: by one record on success, and past the batch's
+// last offset only when the batch was read to its announced end (lengthRemain == 0: the compacted-tail case), never when
+// the response was merely cut at the byte limit.
+//@ func (*messageSetReader).readMessage
+//@   trusted reads the next message of the set (readMessageV1/readMessageV2 carry the accounting contracts); touches the reader stack and the stream only
+//@   modifies *r, r.$empty, region($rpos), region(readerStack.remain), region(readerStack.count), region(readerStack.header), region(readerStack.reader), region(readerStack.parent), region(readerStack.base)
+//@ func (*messageSetReader).remaining
+//@   trusted sums the remaining budgets of the reader stack; zero once the set was drained without error
+//@   ensures r.$empty ==> remain == 0
+//@ func checkTimeoutErr
+//@   ensures err != nil
+//@ func dontExpectEOF
+//@   trusted rewraps io.EOF as io.ErrUnexpectedEOF
+//@ func (*Batch).readMessage
+//@   requires batch.msgs != nil
+//@   option noframe
+//@   modifies heap
+//@   ensures err == nil ==> batch.offset == offset + 1
+//@   ensures err != nil && batch.offset != old(batch.offset) ==> batch.msgs.lengthRemain == 0 && batch.offset == batch.lastOffset + 1
